@@ -215,3 +215,6 @@ def histories(a: int, b: int, c: int, d: int, n: int) -> str:
     post: _ == ''
     """
     return verdict(untraced(_differential, a, b, c, d, n))
+
+
+from vf.validate.stubs import ALL as VALIDATE  # noqa: E402  (stub-vs-real conformance, run before the obligations)
